@@ -293,7 +293,8 @@ class Choices:
 
 
 SEPS = [' ', ' ', '\n', '\t', '  ', '\r\n', ' \n ', ' # note\n', ' /* c */ ', '\n/* a /* nested */ b */\n',
-        ' #\n', ' /* 1 2 0 */ ', ' # "q" [x] (y) -1\n', ' /*x*/ ', '\n\n']
+        ' #\n', ' /* 1 2 0 */ ', ' # "q" [x] (y) -1\n', ' /*x*/ ', '\n\n',
+        ' /* "q" */ ', ' /* say "hi there */ ', '\n/* "a */\n', ' # "unbalanced\n']
 QSEPS = [' ', ' ', '\t', '\n', '  ', '\r\n']      # inside a quoted string only white space may vary
 
 
